@@ -123,6 +123,15 @@ func CheckEmission(d *Driver, e Emission) EmissionInfo {
 		info.Findings = append(info.Findings, Finding{Sig: sig, What: what})
 	}
 
+	// a record of another box of this process (see allSubmitted)
+	for _, sf := range vp.SignFacts() {
+		if d.ForeignSignFact(sf) {
+			info.Origin = "other-box"
+			info.Kind = "set-aside:record-of-another-box-of-this-process"
+			return info
+		}
+	}
+
 	// (a) origin
 	origin := "counted"
 	embDesc, isEmb := d.EmbeddedOrigin(vp)
